@@ -376,6 +376,23 @@ def apply_rules(piece, typemap=None, subs=(), must_fire=(), drop=(), keep_this=F
     note('R16', n)
     t, n = re.subn(r'\bnullptr\b', '((void*)0)', t)
     note('R2', n)
+    # R4 std::numeric_limits<T>::max()/min()/lowest() of the fixed-width integer types: the value the standard defines
+    def numlim(m):
+        tname, which = re.sub(r'\s+', '', m.group(1)), m.group(2)
+        tname = re.sub(r'^std::', '', tname)
+        widths = {'int8_t': (8, 1), 'uint8_t': (8, 0), 'int16_t': (16, 1), 'uint16_t': (16, 0), 'int32_t': (32, 1), 'uint32_t': (32, 0), 'int64_t': (64, 1),
+                  'uint64_t': (64, 0), 'size_t': (64, 0), 'ssize_t': (64, 1), 'ptrdiff_t': (64, 1), 'intptr_t': (64, 1), 'uintptr_t': (64, 0), 'int': (32, 1), 'unsigned': (32, 0)}
+        if tname not in widths:
+            raise ExtractionError("std::numeric_limits of unknown type %r" % tname)
+        bits, sg = widths[tname]
+        if which == 'max':
+            v = (1 << (bits - sg)) - 1
+            lit = '%d%s' % (v, 'u' if not sg else '')
+        else:
+            lit = '0' if not sg else '(-%d - 1)' % ((1 << (bits - 1)) - 1)
+        return '((%s)(%s))' % (tname, lit)
+    t, n = re.subn(r'std::numeric_limits\s*<\s*([\w:\s]+?)\s*>\s*::\s*(max|min|lowest)\s*\(\s*\)', numlim, t)
+    note('R4', n)
     # R2 casts
     for kw in ('static_cast', 'reinterpret_cast', 'const_cast'):
         def cast_fn(m, args, kw=kw):
